@@ -14,6 +14,7 @@ mod nodes;
 mod admission;
 mod hsim;
 mod hdrive;
+mod attack;
 
 fn main() {
     clock::self_test();
@@ -36,6 +37,7 @@ fn main() {
         "C17" => ssim::run_c17(),
         "C11" => nodes::run(&args),
         "C12" => admission::run(),
+        "C01" => attack::run_c01(),
         "C04" => hdrive::run("C04"),
         "C13" => hdrive::run("C13"),
         "C03" => hdrive::run("C03"),
@@ -61,6 +63,7 @@ fn replay(args: &[String]) {
         "codec" => codec::replay(v["replay"]["check"].as_str().unwrap_or(""), &v["replay"]),
         "hsim" => match v["replay"]["driver"].as_str().unwrap_or("") {
             "hdrive" => hdrive::replay(&v["replay"], prop),
+            "attack" => attack::replay(&v["replay"], prop),
             d => { eprintln!("no replayer for hsim driver {d}"); std::process::exit(2); }
         },
         e => { eprintln!("no replayer for engine {e}"); std::process::exit(2); }
